@@ -121,13 +121,24 @@ def _line_of_state(state_text):
     return int(m.group(1)) if m else None
 
 
-def validate_traces(rep, spec, wd, execs, want, tag="trace"):
-    """TLC trace validation of the executions; loops past violating executions. Returns (sites, n_ok)."""
-    sites = {}
+class _Collector:
+    """what a chunk of trace validation found; merged into the Report afterwards (chunks run in parallel)"""
+
+    def __init__(self):
+        self.tlc = []
+        self.drift = []
+        self.violations = []
+        self.notes = []
+        self.sites = {}
+        self.ok = 0
+        self.error = None
+
+
+def _validate_chunk(spec, wd, execs, want, tag):
+    col = _Collector()
     remaining = list(execs)
-    total_ok = 0
     rounds = 0
-    while remaining and rounds < 8:
+    while remaining and rounds < 6:
         rounds += 1
         path = os.path.join(wd, "%s_%s_%d.ndjson" % (spec.name, tag, rounds))
         starts = []
@@ -139,26 +150,26 @@ def validate_traces(rep, spec, wd, execs, want, tag="trace"):
                     f.write(json.dumps(r) + "\n")
                     n += 1
         r = core.run_tlc(wd, spec.name + "_Trace.tla", spec.trace_cfg, workers=1, timeout=spec.trace_timeout,
-                         env_extra={"TRACE": path}, heap="6g")
-        rep.add_tlc(r, "trace validation of %d recorded executions against %s_Trace" % (len(remaining), spec.name))
+                         env_extra={"TRACE": path}, heap="3g", meta_tag=tag)
+        col.tlc.append((r, "trace validation of %d recorded executions against %s_Trace" % (len(remaining), spec.name)))
         if r.error and not r.violated and not r.post_false:
-            raise MachineryError("TLC failed on trace validation of %s:\n%s" % (spec.name, r.error))
+            col.error = "TLC failed on trace validation of %s:\n%s" % (spec.name, r.error)
+            return col
         reached = None
         for tg, rest in r.prints:
             if tg == "SITES":
                 for s in core.json_of_print(rest):
-                    sites.setdefault(s[0], set()).add((s[1], s[2], tuple(s[3])))
+                    col.sites.setdefault(s[0], set()).add((s[1], s[2], tuple(s[3])))
             elif tg == "DRIFT":
                 dl = core.json_of_print(rest)
                 if dl:
                     first = {}
                     for ln in sorted(dl):
-                        # attribute to execution
                         idx = max(i for i, s in enumerate(starts) if s <= ln)
                         first.setdefault(idx, ln)
                     for idx, ln in sorted(first.items())[:5]:
                         ex = remaining[idx]
-                        rep.drift.append("%s %s: line %d of the execution has no matching action in %s: %s" % (
+                        col.drift.append("%s %s: line %d of the execution has no matching action in %s: %s" % (
                             spec.scenario, params_key(ex[0].get("params", {})), ln - starts[idx] + 1, spec.name,
                             json.dumps(ex[ln - starts[idx]])[:300]))
             elif tg == "REACHED":
@@ -166,18 +177,17 @@ def validate_traces(rep, spec, wd, execs, want, tag="trace"):
                 if m:
                     reached = int(m.group(1))
         if not r.violated and not r.post_false:
-            total_ok += len(remaining)
+            col.ok += len(remaining)
             remaining = []
             break
-        # find the failing line
         if r.violated:
             ln = _line_of_state(r.last_state)
-            # the invariant is evaluated in the state AFTER consuming line l-1
             bad_line = (ln - 1) if ln else None
         else:
-            bad_line = reached  # stuck: line `reached` could not be consumed
+            bad_line = reached
         if bad_line is None:
-            raise MachineryError("cannot locate the failing trace line in TLC output:\n" + r.out[-3000:])
+            col.error = "cannot locate the failing trace line in TLC output:\n" + r.out[-3000:]
+            return col
         idx = max(i for i, s in enumerate(starts) if s <= bad_line)
         ex = remaining[idx]
         end = ex[-1] if ex[-1].get("e") in ("end", "crash") else {}
@@ -189,16 +199,49 @@ def validate_traces(rep, spec, wd, execs, want, tag="trace"):
             what = "invariant %s of %s_Trace is violated by a recorded execution of scenario %s %s at its line %d: %s" % (
                 inv, spec.name, spec.scenario, params_key(params), rel + 1, json.dumps(ex[min(rel, len(ex) - 1)])[:400])
             if prop in want:
-                rep.violation("%s/%s/%s" % (inv, spec.scenario, _scen_only(params, spec)), what,
-                              {"scenario": spec.scenario, "params": params, "choices": end.get("choices"),
-                               "sched": end.get("sched"), "invariant": inv, "line": rel + 1, "events": ex})
+                col.violations.append(("%s/%s/%s" % (inv, spec.scenario, _scen_only(params, spec)), what,
+                                       {"scenario": spec.scenario, "params": params, "choices": end.get("choices"),
+                                        "sched": end.get("sched"), "invariant": inv, "line": rel + 1, "events": ex}))
             else:
-                rep.notes.append("(belongs to %s) %s" % (prop, what[:300]))
+                col.notes.append("(belongs to %s) %s" % (prop, what[:300]))
         else:
-            raise MachineryError("trace validation of %s is stuck at line %d (%s); the trace specification must be total" % (
-                spec.name, bad_line, json.dumps(ex[min(rel, len(ex) - 1)])[:300]))
-        total_ok += idx
+            col.error = "trace validation of %s is stuck at line %d (%s); the trace specification must be total" % (
+                spec.name, bad_line, json.dumps(ex[min(rel, len(ex) - 1)])[:300])
+            return col
+        col.ok += idx
         remaining = remaining[idx + 1:]
+    return col
+
+
+def validate_traces(rep, spec, wd, execs, want, tag="trace"):
+    """TLC trace validation of the executions, in parallel chunks. Returns (sites, n_ok)."""
+    from concurrent.futures import ThreadPoolExecutor
+    target = 25000  # trace lines per chunk
+    chunks, cur, n = [], [], 0
+    for ex in execs:
+        cur.append(ex)
+        n += len(ex)
+        if n >= target:
+            chunks.append(cur)
+            cur, n = [], 0
+    if cur:
+        chunks.append(cur)
+    with ThreadPoolExecutor(max_workers=min(6, max(1, len(chunks)))) as pool:
+        cols = list(pool.map(lambda a: _validate_chunk(spec, wd, a[1], want, "%s%d" % (tag, a[0])), enumerate(chunks)))
+    sites = {}
+    total_ok = 0
+    for col in cols:
+        for r, what in col.tlc:
+            rep.add_tlc(r, what)
+        if col.error:
+            raise MachineryError(col.error)
+        for k, v in col.sites.items():
+            sites.setdefault(k, set()).update(v)
+        rep.drift.extend(col.drift)
+        rep.notes.extend(col.notes)
+        for key, what, replay in col.violations:
+            rep.violation(key, what, replay)
+        total_ok += col.ok
     return sites, total_ok
 
 
